@@ -198,6 +198,18 @@ def run(ctx):
         # plain array without amplification type must be refused
         o = core.attempt(to_rfi, plain, pos)
         ctx.check(o.raised, 'refusal:array-without-settings-accepted', cid)
+        # history: the caller edits its own sample in place between two identical requests (each call is judged in situ
+        # against the law, on the values the sample holds at that moment)
+        if s.shape[0] and rng.random() < 0.5:
+            s2 = s.copy()
+            req = spell(rng, s2, pos)
+            o1 = core.attempt(to_rfi, s2, req)
+            etag = zoo.edit_in_place(rng, s2)
+            o2 = core.attempt(to_rfi, s2, req)
+            o3 = core.attempt(to_rfi, s2.copy(), req)
+            ctx.counters['chk:history:edit-in-place'] += 1
+            if not o2.raised and not o3.raised:
+                ctx.check(same(o2.value, o3.value), 'history:answer-of-earlier-values', cid, edit=etag, channels=req)
         ctx.case_done(class_key=('refusals',), nontrivial=True, distinct_key=core.digest(cid, 'ref'))
     # ---- exhaustive subset/order block on one 4-channel sample ------------------
     for cid, rng in ctx.cases([('perm', i) for i in range(2 if ctx.tier == 'quick' else 12)]):
